@@ -318,3 +318,13 @@ def split_top(s, sep):
             start = i + 1
     res.append(s[start:])
     return res
+
+
+class GenericI32(IntTy):
+    """a struct-level type parameter `T` instantiated at i32 (C09 generic struct signatures)"""
+
+    def __init__(self, param='T'):
+        IntTy.__init__(self, 'i32', -2**31, 2**31 - 1)
+        self.name = param
+        self.rust = param
+        self.concrete = 'i32'
